@@ -20,8 +20,9 @@ TIMEOUT = 3000
 STRICT = os.environ.get("VERIF_C14_STRICT", "") not in ("", "0")
 
 RULE = ("exhaustive small shapes: clean-up of every ordered pair of faces "
-        "over 3 points + 1 isolated point under 3 position layouts x all 16 option subsets (thorough: also every "
-        "triple under all 16 option sets), strips of every pair of faces over 4 points, and over 5 points two of which share a position "
+        "over 3 points + 1 isolated point under 3 position layouts x all 16 option subsets, a seeded 1/8 (thorough 1/2) "
+        "class of the face triples over 4 points under option sets 3, 7, 15 (thorough: also every triple over 3 points "
+        "under all 16 option sets), strips of every pair of faces over 4 points, and over 5 points two of which share a position "
         "(attribute seams at one end of an edge), in both modes (thorough: a 1/4 resp. 1/64 class of the triples), deduplication of 4 points under every pair of "
         "point->value maps of two attributes; plus random triangle soups / meshes / point sets with 1..5 attributes over all 11 data types and 1..6 components, "
         "values drawn from small pools (duplicate-heavy) containing +0.0/-0.0, NaNs with equal and different payloads, "
@@ -31,7 +32,8 @@ RULE = ("exhaustive small shapes: clean-up of every ordered pair of faces "
         "degenerate faces and attribute seams that split one or both ends of an edge. Operations: "
         "DeduplicateAttributeValues, DeduplicatePointIds, both, MeshCleanup under all 16 option subsets, "
         "MeshStripifier in both output modes, TriangleSoupMeshBuilder (per-corner and per-face values, two call "
-        "orders), PointCloudBuilder (three ways of setting values, with and without deduplication). Per case: the "
+        "orders), PointCloudBuilder (three ways of setting values, with and without deduplication), reused MeshStripifier / builder "
+        "objects (history ops: the second use is judged like a fresh object's). Per case: the "
         "clauses of C14 are evaluated by the Lean checkers on (input, IMPLEMENTATION's result), the model's result "
         "must equal the implementation's canonical dump, idempotence is observed by running the real operation twice; "
         "a quarter of the random cases runs under ASan/UBSan")
@@ -539,6 +541,16 @@ def exhaustive_cases(rng, thorough):
             txt = tiny_mesh(faces, 4, atts)
             for bits in range(16):
                 out.append((f"cleanup {bits} {txt}", ("exhaustive_cleanup_2x3", name, f"opts{bits}")))
+    # every triple of faces over 4 points (points 1,2 share the position index, value 3 unused):
+    # quick: a seeded 1/8 class x option sets {3, 7, 15}; thorough: a 1/2 class x the same
+    atts4 = pos_layouts[1][1]()
+    triples4 = all_face_lists(4, 3)
+    k = 2 if thorough else 8
+    off = rng.randrange(k)
+    for faces in triples4[off::k]:
+        txt = tiny_mesh(faces, 4, atts4)
+        for bits in (3, 7, 15):
+            out.append((f"cleanup {bits} {txt}", ("class_cleanup_3x4", f"opts{bits}")))
     if thorough:
         atts = pos_layouts[1][1]()
         for faces in all_face_lists(3, 3):
